@@ -713,6 +713,15 @@ def gen_record_lists(rng, lists=False, structural=True, maxn=6):
     xs = [r for r in (fresh(used_a) for _ in range(rng.randint(0, maxn))) if r is not None]
     overlap = rng.choice([0.0, 0.5, 0.8, 1.0])
     ys = [change_payload(rng, x, fields, structural) for x in xs if rng.random() < overlap]
+
+    def reorder(rec):
+        # the same logical record may list its fields (key fields included) in another order on the other side
+        if isinstance(rec, dict) and rng.random() < 0.4:
+            items = list(rec.items())
+            rng.shuffle(items)
+            return dict(items)
+        return rec
+    ys = [reorder(y) for y in ys]
     used_b = set(record_key(y, fields) for y in ys) | (used_a if rng.random() < 0.7 else set())
     ys += [r for r in (fresh(used_b) for _ in range(rng.randint(0, 3))) if r is not None]
     # keys unique within ys even if the fresh ones were drawn against used_b only
